@@ -200,6 +200,21 @@ def cursor_clobber_rule(rep, u):
                 if all(fn.pos_dominates(pos, sp) or sp == pos for sp in _nonfail(fn)) and _nonfail(fn):
                     resetters[fn.name] = c.get("ln")
                     break
+    # R-INIT: the byte count a callback reports is ->tot_transfered_size, accumulated since the start call.  A task record is
+    # re-used (stop, start again with another window): every successful start - scheduled or with a direct first transfer -
+    # begins the count at 0, i.e. the constant store lies on every path to a non-failing return.
+    fs = tp.need(u, "tp_task_start_ex")
+    rep.functions.add(fs.name)
+    desc0 = "tp_task_start_ex: ->%s is set to 0 on every path to a non-failing return (a re-used task starts its byte count afresh)" % field
+    start_resets = fs.name in resetters
+    if start_resets:
+        rep.proved("R-INIT", fs, "start-clears-total", desc0, "constant store at line %s dominates %d non-failing returns" % (resetters[fs.name], len(_nonfail(fs))))
+    else:
+        cond_stores = [x.get("ln") for pos, root, x, ps in fs.nodes() if x.get("k") == "bin" and x["op"] == "=" and
+                       core.strip_casts(x["x"]).get("k") == "mem" and core.strip_casts(x["x"])["f"] == field and const_val(x["y"]) is not None]
+        rep.violated("R-INIT", fs, "start-clears-total", desc0, "%s: a restarted task whose earlier window was partly filled reports the old bytes on top of "
+                     "the new ones, more than the window holds" % (("the constant store at line %s is not on every path to a non-failing return" % cond_stores[0])
+                                                                   if cond_stores else "no constant store to the field is left"), fs.decl_line if hasattr(fs, "decl_line") else None)
     fn = tp.need(u, "tp_task_connect_ex_start")
     rep.functions.add(fn.name)
     uses = [pos for pos, root, y, ps in fn.nodes() if y.get("k") == "mem" and y["f"] == field]
@@ -216,6 +231,8 @@ def cursor_clobber_rule(rep, u):
         else:
             rep.violated("R-CLOBBER", fn, "cursor-restored", desc, "%s() sets ->%s = 0 (line %s) and the cursor is not restored: every attempt is "
                          "reported with addr_index 0, addrs[2] is never tried and max_tries never ends the task" % (c["fn"], field, resetters[c["fn"]]), c.get("ln"))
+    if not start_resets and n == 0:
+        return 1        # the restore obligation has no instance because the start no longer clears: reported above as the violation, not as a broken analysis
     return n
 
 
